@@ -2,6 +2,7 @@
 
 pub mod c16;
 pub mod ctx;
+pub mod ops;
 
 use pvc_engine::{Run, load_replay, parse_args};
 
